@@ -14,6 +14,7 @@ DECIDED += "; shared C04-R2: crash and bounce throw the old runtime and its left
 DECIDED += '; R5 the loop of Sim::run is left only on what Sim::step returned'
 DECIDED += '; R2 also: the completion flag of step starts as the constant true; R5 also: run never asks itself whether software is running'
 DECIDED += '; R1 also: the Result of a host tick is read on every path of the iteration'
+DECIDED += '; R6 Config::duration is written only by Builder::simulation_duration'
 ASSUMPTIONS = ["tokio unhandled_panic(ShutdownRuntime) makes block_on panic in the caller"]
 
 STEP = "turmoil::sim::Sim::step"
